@@ -51,13 +51,15 @@ type Req struct {
 	ZeroEvery   int   `json:"zero_every,omitempty"` // every k-th Read returns (0, nil) first
 	ErrAt       int   `json:"err_at"`               // >=0: after this many wire bytes Read fails (client abort); -1 none
 
+	ContentLength bool `json:"content_length,omitempty"` // wire mode: send Content-Length instead of chunked transfer-encoding
+
 	StallEvery int `json:"stall_every,omitempty"` // controller.In yields to other requests on every k-th call
 }
 
 // Case is one generated scenario: a fresh plugin instance serving Reqs.
 type Case struct {
 	ES           bool   `json:"es"`   // emulate_mode: elasticsearch (all requests go to /_bulk)
-	Mode         string `json:"mode"` // seq | lockstep | free
+	Mode         string `json:"mode"` // seq | lockstep | free | wire (real TCP connection to net/http serving the plugin)
 	AvgEventSize int    `json:"avg_event_size"`
 	Sched        []int  `json:"sched,omitempty"` // lockstep: who makes the next step
 	Reqs         []Req  `json:"reqs"`
@@ -269,7 +271,7 @@ func genLines(t *rapid.T, allowLong, tagged bool) []LineSpec {
 }
 
 func genReq(t *rapid.T, r int, c *Case, allowLong bool) Req {
-	free := c.Mode == "free"
+	free := c.Mode == "free" || c.Mode == "wire" // calls are attributed by the tag in every line
 	q := Req{ErrAt: -1}
 	if !free && chance(t, "raw", 3) {
 		q.UseRaw = true
